@@ -12,7 +12,8 @@ CONDS = [
     Cond('inherit_ok', 'language determined by the real matcher (via :lang(en), :lang(""), :lang("*"), :lang(fr,"en-*") '
          'with select and match) == reference: nearest lang / xml:lang incl. explicitly empty, else <meta> pragma, else '
          'unknown; iframe content is its own document in HTML/XHTML',
-         'values {absent, en, fr, "", EN-us} on html, body, div, p, iframe-inner p; meta {absent, fr, ""}; HTML, XHTML, XML; '
+         'values {absent, en, fr, "", EN-us} on html, body, div, p, iframe-inner p; meta {absent, fr, ""}; HTML, XHTML, XML and two mixed-namespace trees (XML root with embedded XHTML elements; XHTML with '
+         'foreign elements on the chain; the inapplicable lang / xml:lang spelling carries a decoy value); '
          'all 10 elements of the skeleton (enumerated by symbolic index, body native)',
          timeout={'quick': 110, 'thorough': 600}, parts={'quick': 12, 'thorough': 14}),
     Cond('range_list_ok', 'real match_lang(el, ([r1, r2],)) on <p lang=tag> == ref(r1) or ref(r2)',
